@@ -186,6 +186,14 @@ def merge_files(s, rng, tmpdir):
         kind = K.weighted_kinds(rng, K.kind_weights(1, 1, 0.4, 0.0))
         docs.append(gen.rand_message(rng, state, kind, 10 + k, ids, pool=pool,
                                      shape_weights=(0.75, 0.15, 0.1, 0.0)))
+    if rng.random() < 0.35 and len(state.story_ids) >= 2:
+        # two messages that do not commute and share one messageID: the library
+        # applies them in the order the files were listed
+        a, b = state.story_ids[0], state.story_ids[-1]
+        tie = 300 + rng.randint(0, 9)
+        docs.append(B.msg_doc('roStoryMove', tie, ids=[a], target=b))
+        docs.append(B.msg_doc('roStoryMove', tie, ids=[b], target=a))
+        docs.append(B.msg_doc('roStorySend', tie, story_ref=a, body=[B.E('p', 'tie')], fields=['BODY']))
     r = rng.random()
     if r < 0.6:
         docs.append(B.msg_doc('roDelete', 500))
